@@ -139,13 +139,51 @@ def drive(tier):
                     if len(sigs) < 2:
                         continue            # only meaningful for m >= 2: one signer's signature presented twice
                     ssig2 = script_sig(template, code, [sigs[0]] * len(sigs), ks)
-                tx2 = gen.build_tx(d2, bool(n_hist & 1))
+                if n_hist % 3 == 0 and e["k"] not in ("none", "other-key", "duplicate-sig"):
+                    # one mutable object: verified as signed, edited in place, verified again
+                    tx2 = gen.build_tx(d, True)
+                    call(se.VerifyScript, ssig, spk, tx2, idx, c06.flag_objs(flags))
+                    src = gen.build_tx(d2, True)
+                    tx2.nVersion, tx2.nLockTime = src.nVersion, src.nLockTime
+                    while len(tx2.vin) > len(src.vin):
+                        tx2.vin.pop()
+                    while len(tx2.vout) > len(src.vout):
+                        tx2.vout.pop()
+                    for a_, b_ in zip(tx2.vin, src.vin):
+                        a_.prevout.hash, a_.prevout.n, a_.scriptSig, a_.nSequence = b_.prevout.hash, b_.prevout.n, b_.scriptSig, b_.nSequence
+                    for a_, b_ in zip(tx2.vout, src.vout):
+                        a_.nValue, a_.scriptPubKey = b_.nValue, b_.scriptPubKey
+                    tx2.vin.extend(src.vin[len(tx2.vin):])
+                    tx2.vout.extend(src.vout[len(tx2.vout):])
+                else:
+                    tx2 = gen.build_tx(d2, bool(n_hist & 1))
                 before = tx2.serialize()
                 k, v = call(se.VerifyScript, ssig2, spk, tx2, idx, c06.flag_objs(flags))
                 same = tx2.serialize() == before
                 out = {"k": "ok", "same": same} if k == "ret" else dict(T._err(v), same=same)
                 R.add("flow.verify", {"sig": b2l(ssig2), "pk": b2l(spk), "flags": list(flags), "tx": gen.tx_json(d2), "idx": idx, "ht": ht,
                                       "edit": e, "nout_at_sign": no, "template": template}, out, _cost=3000 * (3 if "ms" in template else 1))
+    # volume: rare signature encodings (short r or s, high-S twins) must verify too
+    import hashlib
+    nb = 2000 if tier == "quick" else 40000
+    for kb in keys[:2]:
+        rejected = errors = 0
+        first_bad = []
+        spk = CScript([kb.pub, OP_CHECKSIG])
+        for j in range(nb // 2):
+            d = {"ver": 1, "vin": [{"hash": hashlib.sha256(b"%d" % j).digest(), "n": j, "script": b"", "seq": 0xffffffff}],
+                 "vout": [{"value": j, "script": b"\x51"}], "wit": None, "lock": 0}
+            tx = gen.build_tx(d)
+            k, sg = call(lambda: kb.sign(SignatureHash(spk, tx, 0, 1)) + b"\x01")
+            if k == "exc":
+                errors += 1
+                continue
+            k, v = call(se.VerifyScript, CScript([sg]), spk, tx, 0, ())
+            if k == "exc":
+                rejected += 1
+                if len(first_bad) < 3:
+                    first_bad.append({"sig": b2l(sg), "n": j, "cls": type(v).__name__})
+        R.add("flow.bulk", {"n": nb // 2, "template": "p2pk", "pub": b2l(kb.pub)}, {"rejected": rejected, "errors": errors, "first": first_bad})
     return R.recs
 
 
@@ -157,11 +195,13 @@ def run(tier):
     rep.apply_mismatches(recs, mm)
     rep.cov["evaluations"] = len(recs)
     rep.cov["traces_validated_against_impl"] = len(recs)
-    rep.cov["accepted"] = sum(1 for x in recs if x["out"]["k"] == "ok")
-    rep.cov["templates"] = sorted({x["in"]["template"] for x in recs})
-    rep.cov["hash_types"] = sorted({x["in"]["ht"] for x in recs})
-    rep.cov["edit_kinds"] = sorted({x["in"]["edit"]["k"] + ":" + x["in"]["edit"]["f"] for x in recs})
-    rep.cov["distinct_nontrivial"] = len({(x["in"]["template"], x["in"]["ht"], x["in"]["idx"], json.dumps(x["in"]["edit"]), len(x["in"]["tx"]["vin"])) for x in recs})
+    flows = [x for x in recs if x["op"] == "flow.verify"]
+    rep.cov["bulk_signed_and_verified"] = sum(x["in"]["n"] for x in recs if x["op"] == "flow.bulk")
+    rep.cov["accepted"] = sum(1 for x in flows if x["out"]["k"] == "ok")
+    rep.cov["templates"] = sorted({x["in"]["template"] for x in flows})
+    rep.cov["hash_types"] = sorted({x["in"]["ht"] for x in flows})
+    rep.cov["edit_kinds"] = sorted({x["in"]["edit"]["k"] + ":" + x["in"]["edit"]["f"] for x in flows})
+    rep.cov["distinct_nontrivial"] = len({(x["in"]["template"], x["in"]["ht"], x["in"]["idx"], json.dumps(x["in"]["edit"]), len(x["in"]["tx"]["vin"])) for x in flows})
     rep.cov["samples"] = [vlib.sample_compact(x, 600) for x in recs[:2]]
     return rep.finish(
         rule="templates P2PK, P2PKH, bare 1-of-1/1-of-2/2-of-2/2-of-3 multisig and P2SH-wrapped P2PK/P2PKH/2-of-3 x hash types "
